@@ -128,7 +128,11 @@ def restart_walk(tid, h, w, b, seed, steps, rng):
         start = _initial(mk_builder(h, w, b))
     except Exception as e:  # noqa
         return [dict(base, before=[], updates=[], status="exc", exc="initial:" + type(e).__name__)]
-    bld = mk_builder(h, w, b, unset=seed % 16, initial_blocks=start if seed % 2 else None)
+    # initial_blocks: none / a value that already meets the bounds / the rows of the board / one block with every cell
+    # (the last two usually do NOT meet the bounds: initial() has to repair them before handing anything out)
+    rows = [[(y, x) for x in range(w)] for y in range(h)]
+    whole = [[(y, x) for y in range(h) for x in range(w)]]
+    bld = mk_builder(h, w, b, unset=seed % 16, initial_blocks=[None, start, rows, whole][(seed // 3) % 4])
     try:
         for _ in range(max(2, steps // 4)):
             try:
